@@ -17,6 +17,10 @@ const size_t CAP = 1 << 16;
 at::Block g_tab[CAP];
 size_t g_n = 0;
 bool g_on = false;
+int g_fill = -1;
+void fill(void* p, size_t n) {
+  if (g_fill >= 0 && p) memset(p, g_fill, n);
+}
 void rec(void* p, size_t n) {
   if (!g_on || !p) return;
   if (g_n < CAP) g_tab[g_n++] = {p, n};
@@ -34,6 +38,7 @@ void unrec(void* p) {
 extern "C" {
 void* __wrap_malloc(size_t n) {
   void* p = __real_malloc(n);
+  fill(p, n);
   rec(p, n);
   return p;
 }
@@ -50,11 +55,13 @@ void* __wrap_realloc(void* q, size_t n) {
 }
 void* __wrap_aligned_alloc(size_t al, size_t n) {
   void* p = __real_aligned_alloc(al, n);
+  fill(p, n);
   rec(p, n);
   return p;
 }
 int __wrap_posix_memalign(void** out, size_t al, size_t n) {
   int r = __real_posix_memalign(out, al, n);
+  if (r == 0) fill(*out, n);
   if (r == 0) rec(*out, n);
   return r;
 }
@@ -75,6 +82,7 @@ std::vector<Block> end() {
   return r;
 }
 size_t live() { return g_n; }
+void set_fill(int byte) { g_fill = byte; }
 uint64_t hash_blocks(const std::vector<Block>& b) {
   uint64_t h = 0xcbf29ce484222325ull;
   for (auto& x : b) {
